@@ -209,6 +209,7 @@ static htp_status_t htp_connp_req_buffer(htp_connp_t *connp) {
     }
 
     if (newlen > connp->in_tx->cfg->field_limit_hard) {
+        HTP_VERIF_PROBE("req.buf.limit", connp, newlen, connp->in_tx->cfg->field_limit_hard);
         htp_log(connp, HTP_LOG_MARK, HTP_LOG_ERROR, 0, "Request buffer over the limit: size %zd limit %zd.",
                 newlen, connp->in_tx->cfg->field_limit_hard);        
         return HTP_ERROR;
@@ -295,6 +296,7 @@ htp_status_t htp_connp_REQ_CONNECT_CHECK(htp_connp_t *connp) {
     // response in order to determine if the tunneling request
     // was a success.
     if (connp->in_tx->request_method_number == HTP_M_CONNECT) {        
+        HTP_VERIF_PROBE("req.connect.suspend", connp, connp->in_current_read_offset, connp->in_current_len);
         connp->in_state = htp_connp_REQ_CONNECT_WAIT_RESPONSE;
         connp->in_status = HTP_STREAM_DATA_OTHER;
         return HTP_DATA_OTHER;
@@ -687,6 +689,7 @@ htp_status_t htp_connp_REQ_HEADERS(htp_connp_t *connp) {
 
                 IN_PEEK_NEXT(connp);
 
+                if (connp->in_next_byte == -1) HTP_VERIF_PROBE("req.hdr.fold_peek_eoc", connp, len, 0);
                 if (connp->in_next_byte != -1 && htp_is_folding_char(connp->in_next_byte) == 0) {
                     // Because we know this header is not folded, we can process the buffer straight away.
                     if (connp->cfg->process_request_header(connp, data, len) != HTP_OK) return HTP_ERROR;
@@ -723,6 +726,7 @@ htp_status_t htp_connp_REQ_HEADERS(htp_connp_t *connp) {
                         if (new_in_header == NULL) return HTP_ERROR;
                         connp->in_header = new_in_header;
                     } else {
+                        HTP_VERIF_PROBE("req.hdr.fold_cap", connp, bstr_len(connp->in_header), len);
                         htp_log(connp, HTP_LOG_MARK, HTP_LOG_WARNING, 0, "Request field length exceeds folded maximum");
                     }
                 }
@@ -930,6 +934,7 @@ htp_status_t htp_connp_REQ_FINALIZE(htp_connp_t *connp) {
         htp_connp_req_consolidate_data(connp, &data, &len);
     }
     // Interpret remaining bytes as body data
+    HTP_VERIF_PROBE("req.finalize.as_body", connp, len, connp->in_tx->request_progress);
     htp_status_t rc = htp_tx_req_process_body_data_ex(connp->in_tx, data, len);
     htp_connp_req_clear_buffer(connp);
     return rc;
